@@ -31,8 +31,8 @@ ASSUMPTIONS = [
     'node-level set-back of rules with namespace prefixes passes the sheet namespaces along, as the cssText setters document',
 ]
 MIN_EVENTS = {
-    'quick': {'oracle.sheet-roundtrip': 4000, 'oracle.node-roundtrip': 20000, 'oracle.shipped': 50, 'oracle.edited': 300},
-    'thorough': {'oracle.sheet-roundtrip': 90000, 'oracle.node-roundtrip': 500000, 'oracle.shipped': 50, 'oracle.edited': 8000},
+    'quick': {'oracle.sheet-roundtrip': 3000, 'oracle.node-roundtrip': 14000, 'oracle.shipped': 45, 'oracle.edited': 250},
+    'thorough': {'oracle.sheet-roundtrip': 60000, 'oracle.node-roundtrip': 300000, 'oracle.shipped': 45, 'oracle.edited': 5000},
 }
 HOSTILE_CLASSES = ['string', 'string-backslash', 'string-newline', 'url', 'url-backslash', 'comment', 'ident', 'nonascii']
 
